@@ -9,6 +9,8 @@
 #include "vh.h"
 #include <asmjit/core.h>
 #include <asmjit/x86.h>
+#include <asmjit/a64.h>
+#include "msim.h"
 #include <setjmp.h>
 #include <sys/time.h>
 #include <unordered_set>
@@ -19,7 +21,7 @@ using namespace asmjit;
 // =========================================================================================================
 // IR
 // =========================================================================================================
-enum Kind : uint8_t { KG = 0, KX = 1, KY = 2, KZ = 3, KK = 4 };   // gp64, xmm, ymm, zmm, k-mask
+enum Kind : uint8_t { KG = 0, KX = 1, KY = 2, KZ = 3, KK = 4, KW = 5 };   // gp native (64-bit; pointer), xmm, ymm, zmm, k-mask, gp32
 static int lanes_of(Kind k) { return k == KX ? 2 : k == KY ? 4 : k == KZ ? 8 : 1; }
 
 #define C05_OPS(X) \
@@ -29,7 +31,7 @@ static int lanes_of(Kind k) { return k == KX ? 2 : k == KY ? 4 : k == KZ ? 8 : 1
   X(IMUL2) X(IMUL3) X(MUL) X(IMUL1) X(CQO) X(IDIV) X(CDQ) X(IDIV32) X(CMPXCHG) X(CMPXCHGM) \
   X(MOVZX8) X(MOVZX16) X(MOVSX8) X(MOVSX16) X(MOVSXD) X(MOV8) X(MOV16) X(MOVI8) X(MOVHI8) X(MOVZXHI) X(ADD8) \
   X(INC) X(DEC) X(NEG) X(NOT) X(INC32) X(LOAD) X(STORE) X(ADDM) X(ADDST) X(BTSET) X(SETLT) X(CMOVLT) X(XCHG) \
-  X(STKST) X(STKLD) X(STKADD) X(ADDC) \
+  X(STKST) X(STKLD) X(STKADD) X(ADDC) X(MADD) \
   X(VMOV_VG) X(VMOV_GV) X(VMOVD_VG) X(VMOVD_GV) X(VMOV) X(PADDD) X(PADDQ) X(PSUBD) X(PXOR) X(PCMPEQD) \
   X(VPADDD) X(VPADDQ) X(VPXOR) X(VPSUBQ) X(VPTERNLOG) X(PEXTRQ) X(PINSRQ) X(PSHUFD) X(PUNPCKLQDQ) X(VLOAD) X(VSTORE) X(VPADDQM) X(VBCAST) \
   X(KMOV_KG) X(KMOV_GK) X(KMOV) X(KAND) X(KOR) X(KXOR) X(KXNOR) X(KANDN) X(KNOT) X(KADD) X(KSHL) \
@@ -59,6 +61,7 @@ struct Prog {
   int nargs = 6; std::vector<int> arg_val;   // value bound to each function argument (or -1)
   int K = 0, Kx = 0, Kk = 0;                 // size of the shrunk GP / vector / mask file (0 = full)
   bool avx = false, avx512 = false; int nstk = 0;
+  bool w32 = false;                          // data values are 32-bit virtual registers (kind KW); calls/return use 32-bit types
   int newval(Kind k, const std::string& n) { kinds.push_back(k); names.push_back(n); return int(kinds.size()) - 1; }
 };
 
@@ -146,8 +149,21 @@ extern "C" uint64_t c05_callee0() {
   trash_volatile();
   return r;
 }
-static int fn_nargs(int fn) { return fn; }
-static void* fn_ptr(int fn) { return fn == 0 ? (void*)c05_callee0 : fn == 2 ? (void*)c05_callee2 : (void*)c05_callee8; }
+extern "C" uint32_t c05_callee2w(uint32_t a0, uint32_t a1) {
+  uint64_t a[2] = {a0, a1};
+  if (g_calls.size() < 4096) g_calls.push_back(CallRec{2, std::vector<uint64_t>(a, a + 2)});
+  volatile uint32_t r = uint32_t(callee_value(2, a, 2));
+  trash_volatile();
+  return r;
+}
+extern "C" uint32_t c05_callee8w(uint32_t a0, uint32_t a1, uint32_t a2, uint32_t a3, uint32_t a4, uint32_t a5, uint32_t a6, uint32_t a7) {
+  uint64_t a[8] = {a0, a1, a2, a3, a4, a5, a6, a7};
+  if (g_calls.size() < 4096) g_calls.push_back(CallRec{8, std::vector<uint64_t>(a, a + 8)});
+  volatile uint32_t r = uint32_t(callee_value(8, a, 8));
+  trash_volatile();
+  return r;
+}
+static void* fn_ptr(int fn, bool w32) { return fn == 0 ? (void*)c05_callee0 : fn == 2 ? (w32 ? (void*)c05_callee2w : (void*)c05_callee2) : (w32 ? (void*)c05_callee8w : (void*)c05_callee8); }
 
 // =========================================================================================================
 // REFERENCE INTERPRETER (the oracle): evaluates the IR directly.
@@ -167,6 +183,7 @@ static void interp(const Prog& p, const Input& in, uint64_t mem_ptr, Outcome& ou
   for (int i = 0; i < p.nargs; i++) {
     int vi = p.arg_val[size_t(i)]; if (vi < 0) continue;
     v[size_t(vi)].q[0] = i == 0 ? mem_ptr : i == 1 ? in.sel : i == 2 ? in.cnt : in.a[i - 3];
+    if (p.kinds[size_t(vi)] == KW) v[size_t(vi)].q[0] &= 0xFFFFFFFFull;
   }
   std::vector<int> lpos(size_t(p.nlabels), -1);
   for (size_t k = 0; k < p.code.size(); k++) if (p.code[k].op == O_LABEL) lpos[size_t(p.code[k].lbl)] = int(k);
@@ -183,6 +200,8 @@ static void interp(const Prog& p, const Input& in, uint64_t mem_ptr, Outcome& ou
     uint64_t b = Bq ? Bq[0] : 0, c = Cq ? Cq[0] : 0;
     uint64_t imm = uint64_t(I.imm);
     int L = I.a >= 0 ? lanes_of(p.kinds[size_t(I.a)]) : 1;
+    const int W = ((I.a >= 0 && p.kinds[size_t(I.a)] == KW) || (I.a < 0 && I.b >= 0 && p.kinds[size_t(I.b)] == KW)) ? 32 : 64;   // operation width
+    const uint64_t WM = W == 32 ? 0xFFFFFFFFull : ~0ull; const int WB = W / 8;
     auto m32 = [](uint64_t x) { return x & 0xFFFFFFFFull; };
     auto lane32 = [](uint64_t x, uint64_t y, int op) { uint32_t xl = uint32_t(x), xh = uint32_t(x >> 32), yl = uint32_t(y), yh = uint32_t(y >> 32), rl, rh;
       if (op == 0) { rl = xl + yl; rh = xh + yh; } else if (op == 1) { rl = xl - yl; rh = xh - yh; } else { rl = xl == yl ? ~0u : 0u; rh = xh == yh ? ~0u : 0u; }
@@ -211,26 +230,26 @@ static void interp(const Prog& p, const Input& in, uint64_t mem_ptr, Outcome& ou
       case O_ANDI32: A[0] = m32(A[0] & imm); break;
       case O_ORI32: A[0] = m32(A[0] | imm); break;
       case O_LEA: A[0] = b + (Cq ? (c << I.sz) : 0) + imm; break;
-      case O_SHL: A[0] = A[0] << (b & 63); break;
-      case O_SHR: A[0] = A[0] >> (b & 63); break;
-      case O_SAR: A[0] = uint64_t(int64_t(A[0]) >> (b & 63)); break;
+      case O_SHL: A[0] = A[0] << (b & (W - 1)); break;
+      case O_SHR: A[0] = A[0] >> (b & (W - 1)); break;
+      case O_SAR: A[0] = uint64_t(sx(A[0], W) >> (b & (W - 1))); break;
       case O_SHL32: A[0] = m32(m32(A[0]) << (b & 31)); break;
-      case O_SHLI: A[0] = A[0] << (imm & 63); break;
-      case O_SHRI: A[0] = A[0] >> (imm & 63); break;
-      case O_SARI: A[0] = uint64_t(int64_t(A[0]) >> (imm & 63)); break;
-      case O_ROLI: { unsigned s = imm & 63; A[0] = s ? (A[0] << s) | (A[0] >> (64 - s)) : A[0]; break; }
-      case O_RORI: { unsigned s = imm & 63; A[0] = s ? (A[0] >> s) | (A[0] << (64 - s)) : A[0]; break; }
+      case O_SHLI: A[0] = A[0] << (imm & (W - 1)); break;
+      case O_SHRI: A[0] = A[0] >> (imm & (W - 1)); break;
+      case O_SARI: A[0] = uint64_t(sx(A[0], W) >> (imm & (W - 1))); break;
+      case O_ROLI: { unsigned s = imm & (W - 1); A[0] = s ? ((A[0] << s) | (A[0] >> (W - s))) & WM : A[0]; break; }
+      case O_RORI: { unsigned s = imm & (W - 1); A[0] = s ? ((A[0] >> s) | (A[0] << (W - s))) & WM : A[0]; break; }
       case O_SHLI32: A[0] = m32(m32(A[0]) << (imm & 31)); break;
       case O_IMUL2: A[0] *= b; break;
       case O_IMUL3: A[0] = b * imm; break;
-      case O_MUL: { unsigned __int128 r = (unsigned __int128)b * c; uint64_t lo = uint64_t(r), hi = uint64_t(r >> 64); v[size_t(I.b)].q[0] = lo; A[0] = hi; break; }   // a=hi(out) b=lo(in/out) c=src ; hi written last (as rdx)
-      case O_IMUL1: { __int128 r = (__int128)int64_t(b) * int64_t(c); v[size_t(I.b)].q[0] = uint64_t(r); A[0] = uint64_t((unsigned __int128)r >> 64); break; }
+      case O_MUL: { unsigned __int128 r = (unsigned __int128)b * c; uint64_t lo = uint64_t(r) & WM, hi = uint64_t(r >> W) & WM; v[size_t(I.b)].q[0] = lo; A[0] = hi; break; }   // a=hi(out) b=lo(in/out) c=src ; hi written last (as rdx)
+      case O_IMUL1: { __int128 r = (__int128)sx(b, W) * sx(c, W); v[size_t(I.b)].q[0] = uint64_t(r) & WM; A[0] = uint64_t((unsigned __int128)r >> W) & WM; break; }
       case O_CQO: A[0] = (b >> 63) ? ~0ull : 0; break;
       case O_IDIV: { __int128 dv = (__int128)(((unsigned __int128)A[0] << 64) | b); int64_t d = int64_t(c); if (d == 0) { fail("reference: division by zero"); break; } __int128 q = dv / d, r = dv % d; if (q != (__int128)int64_t(q)) { fail("reference: quotient overflow"); break; } v[size_t(I.b)].q[0] = uint64_t(int64_t(q)); A[0] = uint64_t(int64_t(r)); break; }
       case O_CDQ: A[0] = (b >> 31) & 1 ? 0xFFFFFFFFull : 0; break;
       case O_IDIV32: { int64_t dv = int64_t((m32(A[0]) << 32) | m32(b)); int32_t d = int32_t(c); if (d == 0) { fail("reference: division by zero"); break; } int64_t q = dv / d, r = dv % d; if (q != int64_t(int32_t(q))) { fail("reference: quotient overflow"); break; } v[size_t(I.b)].q[0] = m32(uint64_t(q)); A[0] = m32(uint64_t(r)); break; }
       case O_CMPXCHG: { uint64_t acc = c, dst = A[0]; if (acc == dst) A[0] = b; else v[size_t(I.c)].q[0] = dst; break; }   // a=dst b=src c=accumulator
-      case O_CMPXCHGM: { uint64_t dst = rd(I.imm, 8); if (c == dst) wr(I.imm, b, 8); else v[size_t(I.c)].q[0] = dst; break; }
+      case O_CMPXCHGM: { uint64_t dst = rd(I.imm, WB); if (c == dst) wr(I.imm, b, WB); else v[size_t(I.c)].q[0] = dst; break; }
       case O_MOVZX8: A[0] = b & 0xFF; break;
       case O_MOVZX16: A[0] = b & 0xFFFF; break;
       case O_MOVSX8: A[0] = uint64_t(sx(b, 8)); break;
@@ -249,16 +268,17 @@ static void interp(const Prog& p, const Input& in, uint64_t mem_ptr, Outcome& ou
       case O_INC32: A[0] = m32(A[0] + 1); break;
       case O_LOAD: A[0] = rd(I.imm, I.sz); break;
       case O_STORE: wr(I.imm, A[0], I.sz); break;
-      case O_ADDM: A[0] += rd(I.imm, 8); break;
-      case O_ADDST: wr(I.imm, rd(I.imm, 8) + A[0], 8); break;
-      case O_BTSET: A[0] = (A[0] & ~0xFFull) | ((b >> (c & 63)) & 1); break;
-      case O_SETLT: A[0] = (A[0] & ~0xFFull) | (int64_t(b) < int64_t(c) ? 1 : 0); break;
-      case O_CMOVLT: if (int64_t(b) < int64_t(c)) A[0] = b; break;
+      case O_ADDM: A[0] += rd(I.imm, WB); break;
+      case O_ADDST: wr(I.imm, rd(I.imm, WB) + A[0], WB); break;
+      case O_BTSET: A[0] = (A[0] & ~0xFFull) | ((b >> (c & (W - 1))) & 1); break;
+      case O_SETLT: A[0] = (A[0] & ~0xFFull) | (sx(b, W) < sx(c, W) ? 1 : 0); break;
+      case O_CMOVLT: if (sx(b, W) < sx(c, W)) A[0] = b; break;
       case O_XCHG: { uint64_t t = A[0]; A[0] = b; v[size_t(I.b)].q[0] = t; break; }
       case O_STKST: stk[size_t(I.imm)] = A[0]; break;
       case O_STKLD: A[0] = stk[size_t(I.imm)]; break;
       case O_STKADD: A[0] += stk[size_t(I.imm)]; break;
       case O_ADDC: A[0] += imm; break;
+      case O_MADD: A[0] = b * c + A[0]; break;
       // ---- vectors: lanes of 64 bits, L = lanes of the destination kind ----
       case O_VMOV_VG: for (int k = 0; k < 8; k++) A[k] = 0; A[0] = b; break;                 // (v)movq v, r64 : zero-extends
       case O_VMOV_GV: A[0] = b; break;
@@ -298,20 +318,24 @@ static void interp(const Prog& p, const Input& in, uint64_t mem_ptr, Outcome& ou
       case O_JMP: pc = size_t(lpos[size_t(I.lbl)]); break;
       case O_JZ: if (A[0] == 0) pc = size_t(lpos[size_t(I.lbl)]); break;
       case O_JNZ: if (A[0] != 0) pc = size_t(lpos[size_t(I.lbl)]); break;
-      case O_DECJNZ: A[0] -= 1; if (A[0] != 0) pc = size_t(lpos[size_t(I.lbl)]); break;
-      case O_DECJG: A[0] -= 1; if (int64_t(A[0]) > 0) pc = size_t(lpos[size_t(I.lbl)]); break;
+      case O_DECJNZ: A[0] = (A[0] - 1) & WM; if (A[0] != 0) pc = size_t(lpos[size_t(I.lbl)]); break;
+      case O_DECJG: A[0] = (A[0] - 1) & WM; if (sx(A[0], W) > 0) pc = size_t(lpos[size_t(I.lbl)]); break;
       case O_JT: if (A[0] >= I.lbls.size()) { fail("reference: jump table index out of range"); break; } pc = size_t(lpos[size_t(I.lbls[size_t(A[0])])]); break;
       case O_CALL: {
         CallRec r; r.fn = I.fn;
         for (int x : I.args) r.args.push_back(x <= -1000 ? uint64_t(-1000 - x) : v[size_t(x)].q[0]);
-        uint64_t rv = callee_value(I.fn, r.args.data(), int(r.args.size()));
+        uint64_t rv = callee_value(I.fn, r.args.data(), int(r.args.size())) & (p.w32 ? 0xFFFFFFFFull : ~0ull);
         out.calls.push_back(r);
         if (A) A[0] = rv;
         break;
       }
-      case O_RET: out.ret = A[0]; return;
+      case O_RET: out.ret = A[0] & WM; return;
       default: fail("reference: unknown op"); break;
     }
+    // 32-bit virtual registers hold 32 bits
+    if (I.a >= 0 && p.kinds[size_t(I.a)] == KW) v[size_t(I.a)].q[0] &= 0xFFFFFFFFull;
+    if (I.b >= 0 && p.kinds[size_t(I.b)] == KW) v[size_t(I.b)].q[0] &= 0xFFFFFFFFull;
+    if (I.c >= 0 && p.kinds[size_t(I.c)] == KW) v[size_t(I.c)].q[0] &= 0xFFFFFFFFull;
   }
   if (out.ok) fail("reference: fell off the end");
 }
@@ -328,6 +352,8 @@ struct EmitX86 {
   std::vector<Table> tables;
   Error err = Error::kOk; int err_at = -1; int cur = -1;
   FuncNode* fn = nullptr;
+  bool is32 = false;                       // 32-bit x86 target
+  std::vector<std::pair<uint64_t, int>> call_targets;   // (address token, fn) for the simulated legs
 
   EmitX86(x86::Compiler& c, const Prog& pr) : cc(c), p(pr) {}
   void E(Error e) { if (e != Error::kOk && err == Error::kOk) { err = e; err_at = cur; } }
@@ -335,11 +361,14 @@ struct EmitX86 {
   x86::Vec V(int i) { return vx[size_t(i)]; }
   x86::KReg Kr(int i) { return kr[size_t(i)]; }
   x86::Mem M(int64_t off, int sz) { x86::Mem m = x86::ptr(g[0], int32_t(off)); m.set_size(uint32_t(sz)); return m; }
-  x86::Mem S(int64_t slot) { x86::Mem m = stk.clone_adjusted(slot * 8); m.set_size(8); return m; }
+  x86::Mem S(int64_t slot, int sz) { x86::Mem m = stk.clone_adjusted(slot * 8); m.set_size(uint32_t(sz)); return m; }
+  int WB(int v) const { return (p.kinds[size_t(v)] == KW || is32) ? 4 : 8; }
+  TypeId arg_type(int v) const { return v >= 0 && p.kinds[size_t(v)] == KG ? TypeId::kUIntPtr : (p.w32 || is32) ? TypeId::kUInt32 : TypeId::kUInt64; }
 
   void build() {
-    FuncSignature sig; sig.set_ret_t<uint64_t>(); sig.set_call_conv_id(CallConvId::kCDecl);
-    for (int i = 0; i < p.nargs; i++) sig.add_arg_t<uint64_t>();
+    is32 = cc.arch() == Arch::kX86;
+    FuncSignature sig; sig.set_ret((p.w32 || is32) ? TypeId::kUInt32 : TypeId::kUInt64); sig.set_call_conv_id(CallConvId::kCDecl);
+    for (int i = 0; i < p.nargs; i++) sig.add_arg(arg_type(p.arg_val[size_t(i)]));
     fn = cc.add_func(sig);
     if (!fn) { E(Error::kOutOfMemory); return; }
     if (p.K) {
@@ -354,7 +383,8 @@ struct EmitX86 {
     for (size_t i = 0; i < p.kinds.size(); i++) {
       const char* nm = p.names[i].c_str();
       switch (p.kinds[i]) {
-        case KG: g[i] = cc.new_gp64("%s", nm); break;
+        case KG: g[i] = is32 ? cc.new_gp32("%s", nm) : cc.new_gp64("%s", nm); break;
+        case KW: g[i] = cc.new_gp32("%s", nm); break;
         case KX: vx[i] = cc.new_xmm("%s", nm); break;
         case KY: vx[i] = cc.new_ymm("%s", nm); break;
         case KZ: vx[i] = cc.new_zmm("%s", nm); break;
@@ -416,7 +446,7 @@ struct EmitX86 {
       case O_CDQ: E(cc.cdq(G(a).r32(), G(b).r32())); break;
       case O_IDIV32: E(cc.idiv(G(a).r32(), G(b).r32(), G(c).r32())); break;
       case O_CMPXCHG: E(cc.cmpxchg(G(a), G(b), G(c))); break;
-      case O_CMPXCHGM: E(cc.cmpxchg(M(imm, 8), G(b), G(c))); break;
+      case O_CMPXCHGM: E(cc.cmpxchg(M(imm, WB(b)), G(b), G(c))); break;
       case O_MOVZX8: E(cc.movzx(G(a).r32(), G(b).r8())); break;
       case O_MOVZX16: E(cc.movzx(G(a).r32(), G(b).r16())); break;
       case O_MOVSX8: E(cc.movsx(G(a), G(b).r8())); break;
@@ -433,18 +463,18 @@ struct EmitX86 {
       case O_NEG: E(cc.neg(G(a))); break;
       case O_NOT: E(cc.not_(G(a))); break;
       case O_INC32: E(cc.inc(G(a).r32())); break;
-      case O_LOAD: if (I.sz == 8) E(cc.mov(G(a), M(imm, 8))); else if (I.sz == 4) E(cc.mov(G(a).r32(), M(imm, 4))); else E(cc.movzx(G(a).r32(), M(imm, I.sz))); break;
-      case O_STORE: E(cc.mov(M(imm, I.sz), I.sz == 8 ? G(a) : I.sz == 4 ? G(a).r32() : I.sz == 2 ? G(a).r16() : G(a).r8())); break;
-      case O_ADDM: E(cc.add(G(a), M(imm, 8))); break;
-      case O_ADDST: E(cc.add(M(imm, 8), G(a))); break;
+      case O_LOAD: if (I.sz == 8) E(cc.mov(G(a).r64(), M(imm, 8))); else if (I.sz == 4) E(cc.mov(G(a).r32(), M(imm, 4))); else E(cc.movzx(G(a).r32(), M(imm, I.sz))); break;
+      case O_STORE: E(cc.mov(M(imm, I.sz), I.sz == 8 ? G(a).r64() : I.sz == 4 ? G(a).r32() : I.sz == 2 ? G(a).r16() : G(a).r8())); break;
+      case O_ADDM: E(cc.add(G(a), M(imm, WB(a)))); break;
+      case O_ADDST: E(cc.add(M(imm, WB(a)), G(a))); break;
       case O_BTSET: E(cc.bt(G(b), G(c))); E(cc.setc(G(a).r8())); break;
       case O_SETLT: E(cc.cmp(G(b), G(c))); E(cc.setl(G(a).r8())); break;
       case O_CMOVLT: E(cc.cmp(G(b), G(c))); E(cc.cmovl(G(a), G(b))); break;
       case O_XCHG: E(cc.xchg(G(a), G(b))); break;
-      case O_STKST: E(cc.mov(S(imm), G(a))); break;
-      case O_STKLD: E(cc.mov(G(a), S(imm))); break;
-      case O_STKADD: E(cc.add(G(a), S(imm))); break;
-      case O_ADDC: { x86::Mem m = cc.new_uint64_const((imm & 1) ? ConstPoolScope::kGlobal : ConstPoolScope::kLocal, uint64_t(imm)); E(cc.add(G(a), m)); break; }
+      case O_STKST: E(cc.mov(S(imm, WB(a)), G(a))); break;
+      case O_STKLD: E(cc.mov(G(a), S(imm, WB(a)))); break;
+      case O_STKADD: E(cc.add(G(a), S(imm, WB(a)))); break;
+      case O_ADDC: { ConstPoolScope sc = (imm & 1) ? ConstPoolScope::kGlobal : ConstPoolScope::kLocal; x86::Mem m = WB(a) == 4 ? cc.new_uint32_const(sc, uint32_t(imm)) : cc.new_uint64_const(sc, uint64_t(imm)); E(cc.add(G(a), m)); break; }
       // vectors
       case O_VMOV_VG: if (p.avx) E(cc.vmovq(V(a).xmm(), G(b))); else E(cc.movq(V(a).xmm(), G(b))); break;
       case O_VMOV_GV: if (p.avx) E(cc.vmovq(G(a), V(b).xmm())); else E(cc.movq(G(a), V(b).xmm())); break;
@@ -490,9 +520,10 @@ struct EmitX86 {
       case O_DECJG: E(cc.sub(G(a), 1)); E(cc.jg(labels[size_t(I.lbl)])); break;
       case O_JT: {
         Table t; t.tbl = cc.new_label(); t.lbls = I.lbls;
-        x86::Gp off = cc.new_gp64("jt_off"), tgt = cc.new_gp64("jt_tgt");
+        x86::Gp off = cc.new_gp64("jt_off"), tgt = cc.new_gp64("jt_tgt"), idx = G(a);
+        if (p.kinds[size_t(a)] == KW) { x86::Gp z = cc.new_gp32("jt_idx"); E(cc.mov(z, G(a))); idx = z.r64(); }   // zero-extend a 32-bit selector
         E(cc.lea(off, x86::ptr(t.tbl)));
-        E(cc.movsxd(tgt, x86::dword_ptr(off, G(a), 2)));
+        E(cc.movsxd(tgt, x86::dword_ptr(off, idx, 2)));
         E(cc.add(tgt, off));
         JumpAnnotation* ann = cc.new_jump_annotation();
         if (!ann) { E(Error::kOutOfMemory); break; }
@@ -502,10 +533,13 @@ struct EmitX86 {
         break;
       }
       case O_CALL: {
-        FuncSignature sig; sig.set_ret_t<uint64_t>(); sig.set_call_conv_id(CallConvId::kCDecl);
-        for (size_t k = 0; k < I.args.size(); k++) sig.add_arg_t<uint64_t>();
+        bool w = p.w32 || is32;
+        FuncSignature sig; sig.set_ret(w ? TypeId::kUInt32 : TypeId::kUInt64); sig.set_call_conv_id(CallConvId::kCDecl);
+        for (size_t k = 0; k < I.args.size(); k++) sig.add_arg(w ? TypeId::kUInt32 : TypeId::kUInt64);
         InvokeNode* inv = nullptr;
-        E(cc.invoke(Out(inv), imm_ptr(fn_ptr(I.fn)), sig));
+        uint64_t target = native ? uint64_t(uintptr_t(fn_ptr(I.fn, p.w32))) : (0x00F00000ull + 0x100 * call_targets.size());
+        call_targets.push_back(std::make_pair(target, I.fn));
+        E(cc.invoke(Out(inv), Imm(int64_t(target)), sig));
         if (!inv) break;
         for (size_t k = 0; k < I.args.size(); k++) { if (I.args[k] <= -1000) inv->set_arg(k, Imm(int64_t(-1000 - I.args[k]))); else inv->set_arg(k, G(I.args[k])); }
         if (a >= 0) inv->set_ret(0, G(a));
@@ -515,7 +549,7 @@ struct EmitX86 {
       default: E(Error::kInvalidState); break;
     }
   }
-  static Imm imm_ptr(void* ptr) { return Imm(int64_t(uintptr_t(ptr))); }
+  bool native = true;
 };
 
 // =========================================================================================================
@@ -541,6 +575,13 @@ c05_tramp:
   pushq 56(%rsi)
   pushq 48(%rsi)
   movq %rsp, c05_saved_rsp(%rip)
+  movq %rsi, %r11
+  leaq -16384(%rsp), %rdi
+  movl $2048, %ecx
+  movabsq $0xA5A5A5A5A5A5A5A5, %rax
+  cld
+  rep stosq
+  movq %r11, %rsi
   movabsq $0x1111111111111111, %rbx
   movabsq $0x2222222222222222, %rbp
   movabsq $0x3333333333333333, %r12
@@ -608,7 +649,7 @@ __attribute__((noinline)) static bool run_native(void* fn, const uint64_t* args,
 // =========================================================================================================
 // compile + run + compare one program
 // =========================================================================================================
-struct CaseInfo { std::string shape; std::string ops; std::string replay; std::string body; };   // body = compact rendering of the interesting part
+struct CaseInfo { std::string arch = "x64"; std::string shape; std::string ops; std::string replay; std::string body; };   // body = compact rendering of the interesting part
 struct Stats { long long spills = 0, loads = 0, moves = 0, swaps = 0, rm = 0; };
 
 static JitRuntime* g_rt;
@@ -623,12 +664,14 @@ static std::string input_str(const Input& in, int nargs) {
   return s + "]";
 }
 
+struct Pending { bool have = false; std::string key, desc, replay; };
+static Pending g_pending;           // the violation of the program being run (reported by run_desc after minimisation)
 static bool g_reported = false;   // one violation per program: the first failing input decides the clause
 static void violation(const CaseInfo& ci, const char* clause, const std::string& what) {
-  if (g_reported && !g_verbose) return;
+  if (g_reported) { if (g_verbose) fprintf(stderr, "VIOLATION(further input) %s: %s\n", clause, what.c_str()); return; }
   g_reported = true;
-  std::string key = "ra:x64:" + ci.shape + ":" + clause + ":" + ci.ops;
-  vh::ctx().violation(key, what + " :: program {" + ci.body + "}", ci.replay);
+  std::string key = "ra:" + ci.arch + ":" + ci.shape + ":" + clause + ":" + ci.ops;
+  g_pending.have = true; g_pending.key = key; g_pending.desc = what + " :: program {" + ci.body + "}"; g_pending.replay = ci.replay;
   if (g_verbose) fprintf(stderr, "VIOLATION %s: %s\n", key.c_str(), what.c_str());
 }
 
@@ -704,7 +747,7 @@ static bool run_case(const Prog& p, const CaseInfo& ci, const std::vector<Input>
     std::string at = " on input " + input_str(in, p.nargs);
     if (!ok) {
       violation(ci, "crash", std::string(nr.sig == SIGVTALRM ? "generated code does not terminate" : "generated code died with signal " + std::to_string(nr.sig)) + at);
-      if (nr.sig == SIGVTALRM) break;   // a hang costs seconds: the remaining inputs of this program are not run
+      if (nr.sig == SIGVTALRM) { c.n("hangs")++; break; }   // a hang costs seconds: the remaining inputs of this program are not run
       continue;
     }
     static const uint64_t sent[6] = {0x1111111111111111ull, 0x2222222222222222ull, 0x3333333333333333ull, 0x4444444444444444ull, 0x5555555555555555ull, 0x6666666666666666ull};
@@ -724,7 +767,7 @@ static bool run_case(const Prog& p, const CaseInfo& ci, const std::vector<Input>
       }
       violation(ci, "wrong-calls", d + at); bad = true;
     }
-    else if (nr.ret != ref.ret) { violation(ci, "wrong-return", "returned " + hex64(nr.ret) + ", reference " + hex64(ref.ret) + at); bad = true; }
+    else if ((p.w32 ? (nr.ret & 0xFFFFFFFFull) : nr.ret) != ref.ret) { violation(ci, "wrong-return", "returned " + hex64(nr.ret) + ", reference " + hex64(ref.ret) + at); bad = true; }
     else if (memcmp(mem, ref.mem.data(), kBufBytes) != 0) {
       size_t off = 0; while (off < kBufBytes && ((uint8_t*)mem)[off] == ref.mem[off]) off++;
       uint64_t got = 0, want = 0; size_t q = off & ~size_t(7); memcpy(&got, (uint8_t*)mem + q, 8); memcpy(&want, &ref.mem[q], 8);
@@ -737,19 +780,228 @@ static bool run_case(const Prog& p, const CaseInfo& ci, const std::vector<Input>
 }
 
 // =========================================================================================================
+// AArch64 EMITTER (reduced alphabet; the node list is simulated by engine/msim.h, never executed)
+// =========================================================================================================
+struct EmitA64 {
+  a64::Compiler& cc; const Prog& p;
+  std::vector<a64::Gp> g; std::vector<Label> labels;
+  Error err = Error::kOk; int err_at = -1; int cur = -1;
+  FuncNode* fn = nullptr;
+  std::vector<std::pair<uint64_t, int>> call_targets;
+  EmitA64(a64::Compiler& c, const Prog& pr) : cc(c), p(pr) {}
+  void E(Error e) { if (e != Error::kOk && err == Error::kOk) { err = e; err_at = cur; } }
+  a64::Gp G(int i) { return g[size_t(i)]; }
+  a64::Mem M(int64_t off) { return a64::ptr(g[0], int32_t(off)); }
+  void build() {
+    FuncSignature sig; sig.set_ret(p.w32 ? TypeId::kUInt32 : TypeId::kUInt64); sig.set_call_conv_id(CallConvId::kCDecl);
+    for (int i = 0; i < p.nargs; i++) { int v = p.arg_val[size_t(i)]; sig.add_arg(v >= 0 && p.kinds[size_t(v)] == KG && i == 0 ? TypeId::kUIntPtr : p.w32 ? TypeId::kUInt32 : TypeId::kUInt64); }
+    fn = cc.add_func(sig);
+    if (!fn) { E(Error::kOutOfMemory); return; }
+    if (p.K) fn->frame().add_unavailable_regs(RegGroup::kGp, 0xFFFFFFFFu & ~((1u << p.K) - 1u));
+    g.resize(p.kinds.size());
+    for (size_t i = 0; i < p.kinds.size(); i++) {
+      if (p.kinds[i] == KG) g[i] = cc.new_gp64("%s", p.names[i].c_str());
+      else if (p.kinds[i] == KW) g[i] = cc.new_gp32("%s", p.names[i].c_str());
+      else { E(Error::kInvalidState); return; }
+    }
+    for (int i = 0; i < p.nargs; i++) if (p.arg_val[size_t(i)] >= 0) fn->set_arg(size_t(i), g[size_t(p.arg_val[size_t(i)])]);
+    for (int i = 0; i < p.nlabels; i++) labels.push_back(cc.new_label());
+    for (size_t k = 0; k < p.code.size(); k++) { cur = int(k); ins(p.code[k]); }
+    E(cc.end_func());
+  }
+  void ins(const Ins& I) {
+    int a = I.a, b = I.b, c = I.c; int64_t imm = I.imm;
+    switch (I.op) {
+      case O_MOV: E(cc.mov(G(a), G(b))); break;
+      case O_MOV32: E(cc.mov(G(a).w(), G(b).w())); break;
+      case O_MOVI: E(cc.mov(G(a), imm)); break;
+      case O_ADD: E(cc.add(G(a), G(a), G(b))); break;
+      case O_SUB: E(cc.sub(G(a), G(a), G(b))); break;
+      case O_XOR: E(cc.eor(G(a), G(a), G(b))); break;
+      case O_AND: E(cc.and_(G(a), G(a), G(b))); break;
+      case O_OR: E(cc.orr(G(a), G(a), G(b))); break;
+      case O_ADD32: E(cc.add(G(a).w(), G(a).w(), G(b).w())); break;
+      case O_ADDI: E(cc.add(G(a), G(a), imm)); break;
+      case O_SUBI: E(cc.sub(G(a), G(a), imm)); break;
+      case O_ANDI: E(cc.and_(G(a), G(a), imm)); break;
+      case O_ORI: E(cc.orr(G(a), G(a), imm)); break;
+      case O_XORI: E(cc.eor(G(a), G(a), imm)); break;
+      case O_LEA: if (c >= 0) E(cc.add(G(a), G(b), G(c), a64::lsl(uint32_t(I.sz)))); else E(cc.mov(G(a), G(b))); if (imm) E(cc.add(G(a), G(a), imm)); break;
+      case O_SHL: E(cc.lsl(G(a), G(a), G(b))); break;
+      case O_SHR: E(cc.lsr(G(a), G(a), G(b))); break;
+      case O_SAR: E(cc.asr(G(a), G(a), G(b))); break;
+      case O_SHLI: E(cc.lsl(G(a), G(a), imm)); break;
+      case O_SHRI: E(cc.lsr(G(a), G(a), imm)); break;
+      case O_SARI: E(cc.asr(G(a), G(a), imm)); break;
+      case O_IMUL2: E(cc.mul(G(a), G(a), G(b))); break;
+      case O_MADD: E(cc.madd(G(a), G(b), G(c), G(a))); break;
+      case O_NEG: E(cc.neg(G(a), G(a))); break;
+      case O_NOT: E(cc.mvn(G(a), G(a))); break;
+      case O_LOAD: if (I.sz == 8) E(cc.ldr(G(a).x(), M(imm))); else if (I.sz == 4) E(cc.ldr(G(a).w(), M(imm))); else if (I.sz == 2) E(cc.ldrh(G(a).w(), M(imm))); else E(cc.ldrb(G(a).w(), M(imm))); break;
+      case O_STORE: if (I.sz == 8) E(cc.str(G(a).x(), M(imm))); else if (I.sz == 4) E(cc.str(G(a).w(), M(imm))); else if (I.sz == 2) E(cc.strh(G(a).w(), M(imm))); else E(cc.strb(G(a).w(), M(imm))); break;
+      case O_LABEL: E(cc.bind(labels[size_t(I.lbl)])); break;
+      case O_JMP: E(cc.b(labels[size_t(I.lbl)])); break;
+      case O_JZ: E(cc.cbz(G(a), labels[size_t(I.lbl)])); break;
+      case O_JNZ: E(cc.cbnz(G(a), labels[size_t(I.lbl)])); break;
+      case O_DECJNZ: E(cc.sub(G(a), G(a), 1)); E(cc.cbnz(G(a), labels[size_t(I.lbl)])); break;
+      case O_DECJG: E(cc.subs(G(a), G(a), 1)); E(cc.b_gt(labels[size_t(I.lbl)])); break;
+      case O_CALL: {
+        FuncSignature sig; sig.set_ret(p.w32 ? TypeId::kUInt32 : TypeId::kUInt64); sig.set_call_conv_id(CallConvId::kCDecl);
+        for (size_t k = 0; k < I.args.size(); k++) sig.add_arg(p.w32 ? TypeId::kUInt32 : TypeId::kUInt64);
+        uint64_t target = 0x00F00000ull + 0x100 * call_targets.size();
+        call_targets.push_back(std::make_pair(target, I.fn));
+        a64::Gp t = cc.new_gp64("fn%u", unsigned(call_targets.size()));
+        E(cc.mov(t, target));
+        InvokeNode* inv = nullptr;
+        E(cc.invoke(Out(inv), t, sig));
+        if (!inv) break;
+        for (size_t k = 0; k < I.args.size(); k++) { if (I.args[k] <= -1000) inv->set_arg(k, Imm(int64_t(-1000 - I.args[k]))); else inv->set_arg(k, G(I.args[k])); }
+        if (a >= 0) inv->set_ret(0, G(a));
+        break;
+      }
+      case O_RET: E(cc.ret(G(a))); break;
+      default: E(Error::kInvalidState); break;
+    }
+  }
+};
+
+// =========================================================================================================
+// SIMULATED LEGS (x86-32 and AArch64): run_passes() + msim over the allocated node list
+// =========================================================================================================
+static const size_t kSimBuf = 512;             // bytes of the buffer that exist in the simulated machine
+static const uint64_t kSimMem = 0x20000000ull, kSimStack = 0x7FFF0000ull, kSimRet = 0xDEADBEE0ull;
+
+static void ra_stats(BaseCompiler& cc, Stats& st) {
+  for (BaseNode* n = cc.first_node(); n; n = n->next()) {
+    if (!n->is_inst()) continue;
+    InstNode* in = n->as<InstNode>();
+    uint64_t tag = n->user_data_as_uint64();
+    if (tag >= 0x100) { uint64_t mem_now = 0; for (size_t k = 0; k < in->op_count(); k++) if (in->op(k).is_mem()) mem_now++; if (!n->is_invoke() && mem_now > tag - 0x100) st.rm++; continue; }
+    const char* cm = n->inline_comment();
+    if (!cm) continue;
+    if (!strncmp(cm, "<SAVE>", 6) || !strncmp(cm, "<SPILL>", 7)) st.spills++;
+    else if (!strncmp(cm, "<LOAD>", 6)) st.loads++;
+    else if (!strncmp(cm, "<MOVE>", 6)) st.moves++;
+    else if (!strncmp(cm, "<SWAP>", 6)) st.swaps++;
+  }
+}
+static void tag_nodes(BaseCompiler& cc) {
+  for (BaseNode* n = cc.first_node(); n; n = n->next()) {
+    uint64_t tag = 0x100;
+    if (n->is_inst()) { InstNode* in = n->as<InstNode>(); for (size_t k = 0; k < in->op_count(); k++) if (in->op(k).is_mem()) tag++; }
+    n->set_user_data_as_uint64(tag);
+  }
+}
+
+static void run_case_sim(const Prog& p, const CaseInfo& ci, const std::vector<Input>& inputs, int arch /* 1 x86-32, 2 a64 */) {
+  vh::Ctx& c = vh::ctx();
+  vh::set_case(ci.replay);
+  g_reported = false;
+  c.n("evaluations")++;
+  const bool a64m = arch == 2;
+  Environment env(a64m ? Arch::kAArch64 : Arch::kX86);
+  CodeHolder code; code.init(env);
+  x86::Compiler xc; a64::Compiler ac;
+  BaseCompiler* cc = a64m ? (BaseCompiler*)&ac : (BaseCompiler*)&xc;
+  code.attach(cc);
+  cc->add_diagnostic_options(DiagnosticOptions::kRAAnnotate);
+  std::vector<std::pair<uint64_t, int>> call_targets;
+  Error berr = Error::kOk; int berr_at = -1;
+  if (a64m) { EmitA64 em(ac, p); em.build(); berr = em.err; berr_at = em.err_at; call_targets = em.call_targets; }
+  else { EmitX86 em(xc, p); em.native = false; em.build(); berr = em.err; berr_at = em.err_at; call_targets = em.call_targets; }
+  if (berr != Error::kOk) {
+    violation(ci, "compile-error", std::string("building the program with the Compiler failed at '") + (berr_at >= 0 ? ins_str(p, p.code[size_t(berr_at)]) : std::string("?")) + "': " + DebugUtils::error_as_string(berr));
+    return;
+  }
+  tag_nodes(*cc);
+  Error e = cc->run_passes();
+  if (e != Error::kOk) { violation(ci, "compile-error", std::string("run_passes() failed on a well-formed program: ") + DebugUtils::error_as_string(e)); return; }
+  Stats st; ra_stats(*cc, st);
+  if (st.spills || st.loads || st.moves || st.swaps || st.rm) c.n("distinct_nontrivial")++;
+  c.n("ra_saves") += st.spills; c.n("ra_loads") += st.loads; c.n("ra_moves") += st.moves; c.n("ra_swaps") += st.swaps; c.n("ra_reg_to_mem") += st.rm;
+  if (g_verbose) {
+    String sb; FormatOptions fo;
+    Formatter::format_node_list(sb, fo, cc);
+    fprintf(stderr, "---- program ----\n%s\n---- allocated node list ----\n%s\n", prog_str(p).c_str(), sb.data());
+  }
+  BaseNode* first = cc->first_node();
+  const uint64_t wmask = (p.w32 || !a64m) ? 0xFFFFFFFFull : ~0ull;
+  for (const Input& in : inputs) {
+    Outcome ref;
+    interp(p, in, kSimMem, ref);
+    if (!ref.ok) { fprintf(stderr, "c05: generator produced an ill-defined program (%s): %s\ncase: %s\n", ref.why.c_str(), prog_str(p).c_str(), ci.replay.c_str()); exit(2); }
+    for (size_t i = kSimBuf; i < kBufBytes; i++) if (ref.mem[i]) { fprintf(stderr, "c05: simulated leg: reference wrote beyond the simulated buffer\ncase: %s\n", ci.replay.c_str()); exit(2); }
+    msim::Machine m; m.a64 = a64m; m.is64 = a64m;
+    for (uint32_t i = 0; i < 32; i++) m.gp[i] = (0xBAD0000000000000ull | (uint64_t(i) << 8)) & m.addr_mask();
+    uint64_t argv[10] = {kSimMem, in.sel, in.cnt, in.a[0], in.a[1], in.a[2], in.a[3], in.a[4], in.a[5], in.a[6]};
+    for (int i = 1; i < 10; i++) argv[i] &= wmask;
+    // caller frame: arguments on the stack (x86-32: all; a64: beyond the eighth), 256 bytes of caller stack mapped
+    uint64_t S0;
+    if (!a64m) { S0 = kSimStack - 4; for (uint64_t a = S0; a < S0 + 256; a++) m.wr8(a, 0x5C); m.wr(S0, kSimRet, 4); for (int i = 0; i < 10; i++) m.wr(S0 + 4 + 4 * uint64_t(i), argv[i], 4); m.gp[4] = S0; }
+    else { S0 = kSimStack; for (uint64_t a = S0; a < S0 + 256; a++) m.wr8(a, 0x5C); for (int i = 0; i < 8; i++) m.gp[i] = argv[i]; for (int i = 8; i < 10; i++) m.wr(S0 + 8 * uint64_t(i - 8), argv[i], 8); m.gp[31] = S0; m.gp[30] = kSimRet; }
+    uint64_t entry_gp[32]; memcpy(entry_gp, m.gp, sizeof entry_gp);
+    for (size_t i = 0; i < kSimBuf; i++) m.wr8(kSimMem + i, ref.mem.empty() ? 0 : 0);
+    for (int i = 0; i < 8; i++) m.wr(kSimMem + 8 * uint64_t(i), in.m[i], 8);
+    std::vector<CallRec> calls;
+    m.on_call = [&](msim::Machine& mm, uint64_t target) {
+      int fnid = -1; for (auto& t : call_targets) if (t.first == (target & mm.addr_mask())) fnid = t.second;
+      if (fnid < 0) { mm.fault = "call to an unknown target"; return; }
+      CallRec r; r.fn = fnid;
+      for (int i = 0; i < fnid; i++) r.args.push_back(a64m ? (mm.gp[i] & wmask) : mm.rd(mm.gp[4] + 4 + 4 * uint64_t(i), 4));
+      uint64_t rv = callee_value(fnid, r.args.data(), fnid) & wmask;
+      if (calls.size() < 4096) calls.push_back(r);
+      if (a64m) { for (int i = 0; i <= 17; i++) mm.gp[i] = 0xDEAD0001DEAD0001ull; mm.gp[0] = rv | (p.w32 ? 0xDEAD000100000000ull : 0); }
+      else { mm.gp[0] = rv; mm.gp[1] = 0xDEAD0001; mm.gp[2] = 0xDEAD0001; }
+    };
+    c.n("traces")++;
+    bool finished = msim::run(m, first, first, nullptr, nullptr, 400000);
+    std::string at = " on input " + input_str(in, p.nargs);
+    if (!m.unsupported.empty()) { c.n("undecided")++; c.note("undecided (outside the simulator's vocabulary): " + m.unsupported); c.n("traces")--; break; }
+    if (!finished) { violation(ci, "crash", "allocated code does not terminate (simulated)" + at); break; }
+    if (!m.fault.empty()) { violation(ci, "crash", "simulated fault: " + m.fault + at); continue; }
+    if (!m.returned || m.ret_target != kSimRet) { violation(ci, "crash", "return to " + hex64(m.ret_target) + " instead of the caller" + at); continue; }
+    bool bad = false;
+    if (!a64m) { if (m.gp[4] != S0 + 4) { violation(ci, "crash", "stack pointer not restored on return" + at); bad = true; } for (int r : {3, 5, 6, 7}) if (!bad && m.gp[r] != entry_gp[r]) { violation(ci, "crash", "callee-saved register id " + std::to_string(r) + " not preserved" + at); bad = true; } }
+    else { if (m.gp[31] != S0) { violation(ci, "crash", "stack pointer not restored on return" + at); bad = true; } for (int r = 19; r <= 29 && !bad; r++) if (m.gp[r] != entry_gp[r]) { violation(ci, "crash", "callee-saved register x" + std::to_string(r) + " not preserved" + at); bad = true; } }
+    if (bad) continue;
+    uint64_t ret = m.gp[0] & wmask;
+    if (!(calls == ref.calls)) {
+      std::string d = "external calls differ: " + std::to_string(calls.size()) + " calls, reference " + std::to_string(ref.calls.size());
+      for (size_t k = 0; k < calls.size() && k < ref.calls.size(); k++) if (!(calls[k] == ref.calls[k])) {
+        d += "; call #" + std::to_string(k) + " f" + std::to_string(calls[k].fn) + " args got (";
+        for (size_t j = 0; j < calls[k].args.size(); j++) d += (j ? "," : "") + hex64(calls[k].args[j]);
+        d += ") reference ("; for (size_t j = 0; j < ref.calls[k].args.size(); j++) d += (j ? "," : "") + hex64(ref.calls[k].args[j]);
+        d += ")"; break;
+      }
+      violation(ci, "wrong-calls", d + at);
+    }
+    else if (ret != ref.ret) violation(ci, "wrong-return", "returned " + hex64(ret) + ", reference " + hex64(ref.ret) + at);
+    else {
+      for (size_t i = 0; i < kSimBuf; i++) if (m.rd8(kSimMem + i) != ref.mem[i]) { violation(ci, "wrong-memory", "memory buffer differs at byte offset " + std::to_string(i) + at); bad = true; break; }
+      if (!bad) for (auto& kv : m.mem) {
+        uint64_t a = kv.first;
+        bool in_buf = a >= kSimMem && a < kSimMem + kSimBuf, in_stack = a < S0 + 256 && a + 0x100000 >= S0;
+        if (!in_buf && !in_stack) { violation(ci, "wrong-memory", "store outside the memory buffer and the stack (address " + hex64(a) + ")" + at); break; }
+      }
+    }
+  }
+}
+
+// =========================================================================================================
 // GENERATOR: shape x K x n x argument mode x value mode x slot fillings
 // =========================================================================================================
 struct Fill { int slot; int alpha; int pat; };
-struct Desc { int shape = 0, K = 0, n = 1, am = 6, vm = 0; std::vector<Fill> fills; };
+struct Desc { int arch = 0 /* 0 x64 native, 1 x86-32 simulated, 2 AArch64 simulated */; int shape = 0, K = 0, n = 1, am = 6, vm = 0; std::vector<Fill> fills; };
+static const char* const kArchName[] = {"x64", "x86", "a64"};
 
 enum { SH_STRAIGHT, SH_DIAMOND, SH_LOOP, SH_NESTED, SH_LOOPCOND, SH_IRREDUCIBLE, SH_JT3, SH_JT2, SH_CALLMID, SH_CALLLOOP, SH_TWOCALLS, SH__COUNT };
 static const char* const kShapeName[] = {"straight", "diamond", "loop", "nested-loop", "loop-cond", "irreducible", "jumptable3", "jumptable2", "call-mid", "call-loop", "two-calls"};
 static const int kShapeSlots[] = {2, 4, 4, 4, 4, 4, 4, 3, 2, 2, 3};
 
-enum { NEED_RDX = 1, NEED_AB_DISTINCT = 2, NEED_XMM_ONLY = 4, NEED_VEX = 8, NEED_NOT_Z = 16, NEED_BC_DISTINCT = 32 };
+enum { NEED_RDX = 1, NEED_AB_DISTINCT = 2, NEED_XMM_ONLY = 4, NEED_VEX = 8, NEED_NOT_Z = 16, NEED_BC_DISTINCT = 32, NEED_64 = 64, NEED_NATIVE = 128, NEED_3REGS = 256 };
 
 struct PB;
-struct Alpha { const char* name; int vm; /* 0 gp, 1 vector, 2 mask */ int arity; const char* kinds; int need; void (*gen)(PB&, int, int, int); };
+struct Alpha { const char* name; int vm; /* 0 x86 gp, 1 x86 vector, 2 x86 mask, 3 AArch64 gp */ int arity; const char* kinds; int need; void (*gen)(PB&, int, int, int); };
 
 struct PB {
   Prog p; const Desc& d;
@@ -760,7 +1012,8 @@ struct PB {
   bool ok = true;
   explicit PB(const Desc& dd) : d(dd) {}
   Ins& I(Op op, int a = -1, int b = -1, int c = -1, int64_t imm = 0, int sz = 0) { Ins i; i.op = op; i.a = a; i.b = b; i.c = c; i.imm = imm; i.sz = sz; p.code.push_back(i); return p.code.back(); }
-  int tmp(const char* base) { return p.newval(KG, std::string(base) + std::to_string(p.kinds.size())); }
+  Kind dk = KG;   // kind of the data values (KW in the 32-bit value mode)
+  int tmp(const char* base) { return p.newval(dk, std::string(base) + std::to_string(p.kinds.size())); }
   int label() { return p.nlabels++; }
   void bind(int l) { I(O_LABEL).lbl = l; }
   void jmp(int l) { I(O_JMP).lbl = l; }
@@ -778,17 +1031,17 @@ static const int64_t OUT_SLOT = 128;   // byte offsets inside the memory buffer 
 static const Alpha kAlpha[] = {
   // ---- GP, two operands ----
   {"mov", 0, 2, "gg", 0, GEN { UNUSED; b.I(O_MOV, x, y); }},
-  {"mov32", 0, 2, "gg", 0, GEN { UNUSED; b.I(O_MOV32, x, y); }},
+  {"mov32", 0, 2, "gg", NEED_64, GEN { UNUSED; b.I(O_MOV32, x, y); }},
   {"add", 0, 2, "gg", 0, GEN { UNUSED; b.I(O_ADD, x, y); }},
   {"sub", 0, 2, "gg", 0, GEN { UNUSED; b.I(O_SUB, x, y); }},
   {"xor", 0, 2, "gg", 0, GEN { UNUSED; b.I(O_XOR, x, y); }},
   {"and", 0, 2, "gg", 0, GEN { UNUSED; b.I(O_AND, x, y); }},
   {"or", 0, 2, "gg", 0, GEN { UNUSED; b.I(O_OR, x, y); }},
-  {"add32", 0, 2, "gg", 0, GEN { UNUSED; b.I(O_ADD32, x, y); }},
-  {"sub32", 0, 2, "gg", 0, GEN { UNUSED; b.I(O_SUB32, x, y); }},
-  {"xor32", 0, 2, "gg", 0, GEN { UNUSED; b.I(O_XOR32, x, y); }},
-  {"and32", 0, 2, "gg", 0, GEN { UNUSED; b.I(O_AND32, x, y); }},
-  {"or32", 0, 2, "gg", 0, GEN { UNUSED; b.I(O_OR32, x, y); }},
+  {"add32", 0, 2, "gg", NEED_64, GEN { UNUSED; b.I(O_ADD32, x, y); }},
+  {"sub32", 0, 2, "gg", NEED_64, GEN { UNUSED; b.I(O_SUB32, x, y); }},
+  {"xor32", 0, 2, "gg", NEED_64, GEN { UNUSED; b.I(O_XOR32, x, y); }},
+  {"and32", 0, 2, "gg", NEED_64, GEN { UNUSED; b.I(O_AND32, x, y); }},
+  {"or32", 0, 2, "gg", NEED_64, GEN { UNUSED; b.I(O_OR32, x, y); }},
   {"imul2", 0, 2, "gg", 0, GEN { UNUSED; b.I(O_IMUL2, x, y); }},
   {"imul3", 0, 2, "gg", 0, GEN { UNUSED; b.I(O_IMUL3, x, y, -1, 13); }},
   {"xchg", 0, 2, "gg", 0, GEN { UNUSED; b.I(O_XCHG, x, y); }},
@@ -796,7 +1049,7 @@ static const Alpha kAlpha[] = {
   {"movzx16", 0, 2, "gg", 0, GEN { UNUSED; b.I(O_MOVZX16, x, y); }},
   {"movsx8", 0, 2, "gg", 0, GEN { UNUSED; b.I(O_MOVSX8, x, y); }},
   {"movsx16", 0, 2, "gg", 0, GEN { UNUSED; b.I(O_MOVSX16, x, y); }},
-  {"movsxd", 0, 2, "gg", 0, GEN { UNUSED; b.I(O_MOVSXD, x, y); }},
+  {"movsxd", 0, 2, "gg", NEED_64, GEN { UNUSED; b.I(O_MOVSXD, x, y); }},
   {"mov8", 0, 2, "gg", 0, GEN { UNUSED; b.I(O_MOV8, x, y); }},
   {"mov16", 0, 2, "gg", 0, GEN { UNUSED; b.I(O_MOV16, x, y); }},
   {"movhi8", 0, 2, "gg", 0, GEN { UNUSED; b.I(O_MOVHI8, x, y); }},
@@ -805,12 +1058,12 @@ static const Alpha kAlpha[] = {
   {"shl-cl", 0, 2, "gg", 0, GEN { UNUSED; b.I(O_SHL, x, y); }},
   {"shr-cl", 0, 2, "gg", 0, GEN { UNUSED; b.I(O_SHR, x, y); }},
   {"sar-cl", 0, 2, "gg", 0, GEN { UNUSED; b.I(O_SAR, x, y); }},
-  {"shl32-cl", 0, 2, "gg", 0, GEN { UNUSED; b.I(O_SHL32, x, y); }},
+  {"shl32-cl", 0, 2, "gg", NEED_64, GEN { UNUSED; b.I(O_SHL32, x, y); }},
   {"lea-b", 0, 2, "gg", 0, GEN { UNUSED; b.I(O_LEA, x, y, -1, 0x21); }},
   {"stk-move", 0, 2, "gg", 0, GEN { UNUSED; b.p.nstk = 2; b.I(O_STKST, y, -1, -1, 1); b.I(O_STKLD, x, -1, -1, 1); }},
   {"stk-add", 0, 2, "gg", 0, GEN { UNUSED; b.p.nstk = 2; b.I(O_STKST, y, -1, -1, 0); b.I(O_STKADD, x, -1, -1, 0); }},
   // ---- GP, one operand ----
-  {"movi64", 0, 1, "g", 0, GEN { UNUSED; b.I(O_MOVI, x, -1, -1, 0x1122334455667788ll); }},
+  {"movi64", 0, 1, "g", NEED_64, GEN { UNUSED; b.I(O_MOVI, x, -1, -1, 0x1122334455667788ll); }},
   {"movi0", 0, 1, "g", 0, GEN { UNUSED; b.I(O_MOVI, x, -1, -1, 0); }},
   {"addi", 0, 1, "g", 0, GEN { UNUSED; b.I(O_ADDI, x, -1, -1, 0x1234); }},
   {"add-0", 0, 1, "g", 0, GEN { UNUSED; b.I(O_ADDI, x, -1, -1, 0); }},
@@ -822,15 +1075,15 @@ static const Alpha kAlpha[] = {
   {"and-ff", 0, 1, "g", 0, GEN { UNUSED; b.I(O_ANDI, x, -1, -1, 0xFF); }},
   {"or-0", 0, 1, "g", 0, GEN { UNUSED; b.I(O_ORI, x, -1, -1, 0); }},
   {"or-m1", 0, 1, "g", 0, GEN { UNUSED; b.I(O_ORI, x, -1, -1, -1); }},
-  {"add32-0", 0, 1, "g", 0, GEN { UNUSED; b.I(O_ADDI32, x, -1, -1, 0); }},
-  {"xor32-0", 0, 1, "g", 0, GEN { UNUSED; b.I(O_XORI32, x, -1, -1, 0); }},
-  {"and32-0", 0, 1, "g", 0, GEN { UNUSED; b.I(O_ANDI32, x, -1, -1, 0); }},
-  {"and32-m1", 0, 1, "g", 0, GEN { UNUSED; b.I(O_ANDI32, x, -1, -1, -1); }},
-  {"or32-0", 0, 1, "g", 0, GEN { UNUSED; b.I(O_ORI32, x, -1, -1, 0); }},
-  {"or32-m1", 0, 1, "g", 0, GEN { UNUSED; b.I(O_ORI32, x, -1, -1, -1); }},
+  {"add32-0", 0, 1, "g", NEED_64, GEN { UNUSED; b.I(O_ADDI32, x, -1, -1, 0); }},
+  {"xor32-0", 0, 1, "g", NEED_64, GEN { UNUSED; b.I(O_XORI32, x, -1, -1, 0); }},
+  {"and32-0", 0, 1, "g", NEED_64, GEN { UNUSED; b.I(O_ANDI32, x, -1, -1, 0); }},
+  {"and32-m1", 0, 1, "g", NEED_64, GEN { UNUSED; b.I(O_ANDI32, x, -1, -1, -1); }},
+  {"or32-0", 0, 1, "g", NEED_64, GEN { UNUSED; b.I(O_ORI32, x, -1, -1, 0); }},
+  {"or32-m1", 0, 1, "g", NEED_64, GEN { UNUSED; b.I(O_ORI32, x, -1, -1, -1); }},
   {"shl-1", 0, 1, "g", 0, GEN { UNUSED; b.I(O_SHLI, x, -1, -1, 1); }},
   {"shl-0", 0, 1, "g", 0, GEN { UNUSED; b.I(O_SHLI, x, -1, -1, 0); }},
-  {"shl32-0", 0, 1, "g", 0, GEN { UNUSED; b.I(O_SHLI32, x, -1, -1, 0); }},
+  {"shl32-0", 0, 1, "g", NEED_64, GEN { UNUSED; b.I(O_SHLI32, x, -1, -1, 0); }},
   {"shr-13", 0, 1, "g", 0, GEN { UNUSED; b.I(O_SHRI, x, -1, -1, 13); }},
   {"sar-63", 0, 1, "g", 0, GEN { UNUSED; b.I(O_SARI, x, -1, -1, 63); }},
   {"rol-7", 0, 1, "g", 0, GEN { UNUSED; b.I(O_ROLI, x, -1, -1, 7); }},
@@ -839,28 +1092,28 @@ static const Alpha kAlpha[] = {
   {"dec", 0, 1, "g", 0, GEN { UNUSED; b.I(O_DEC, x); }},
   {"neg", 0, 1, "g", 0, GEN { UNUSED; b.I(O_NEG, x); }},
   {"not", 0, 1, "g", 0, GEN { UNUSED; b.I(O_NOT, x); }},
-  {"inc32", 0, 1, "g", 0, GEN { UNUSED; b.I(O_INC32, x); }},
+  {"inc32", 0, 1, "g", NEED_64, GEN { UNUSED; b.I(O_INC32, x); }},
   {"movi8", 0, 1, "g", 0, GEN { UNUSED; b.I(O_MOVI8, x, -1, -1, 0x5A); }},
   {"add-mem", 0, 1, "g", 0, GEN { UNUSED; b.I(O_ADDM, x, -1, -1, 8); }},
   {"add-to-mem", 0, 1, "g", 0, GEN { UNUSED; b.I(O_ADDST, x, -1, -1, OUT_SLOT); }},
-  {"load8", 0, 1, "g", 0, GEN { UNUSED; b.I(O_LOAD, x, -1, -1, 16, 8); }},
+  {"load8", 0, 1, "g", NEED_64, GEN { UNUSED; b.I(O_LOAD, x, -1, -1, 16, 8); }},
   {"load4", 0, 1, "g", 0, GEN { UNUSED; b.I(O_LOAD, x, -1, -1, 20, 4); }},
   {"load1", 0, 1, "g", 0, GEN { UNUSED; b.I(O_LOAD, x, -1, -1, 27, 1); }},
-  {"store8", 0, 1, "g", 0, GEN { UNUSED; b.I(O_STORE, x, -1, -1, OUT_SLOT + 8, 8); }},
+  {"store8", 0, 1, "g", NEED_64, GEN { UNUSED; b.I(O_STORE, x, -1, -1, OUT_SLOT + 8, 8); }},
   {"store4", 0, 1, "g", 0, GEN { UNUSED; b.I(O_STORE, x, -1, -1, OUT_SLOT + 16, 4); }},
   {"store2", 0, 1, "g", 0, GEN { UNUSED; b.I(O_STORE, x, -1, -1, OUT_SLOT + 24, 2); }},
   {"store1", 0, 1, "g", 0, GEN { UNUSED; b.I(O_STORE, x, -1, -1, OUT_SLOT + 32, 1); }},
-  {"add-const", 0, 1, "g", 0, GEN { UNUSED; b.I(O_ADDC, x, -1, -1, 0x0123456789ABCDEEll); }},
-  {"add-gconst", 0, 1, "g", 0, GEN { UNUSED; b.I(O_ADDC, x, -1, -1, 0x0FEDCBA987654321ll); }},
+  {"add-const", 0, 1, "g", NEED_NATIVE, GEN { UNUSED; b.I(O_ADDC, x, -1, -1, 0x0123456789ABCDEEll); }},
+  {"add-gconst", 0, 1, "g", NEED_NATIVE, GEN { UNUSED; b.I(O_ADDC, x, -1, -1, 0x0FEDCBA987654321ll); }},
   // ---- GP, three operands ----
   {"lea-bis", 0, 3, "ggg", 0, GEN { UNUSED; b.I(O_LEA, x, y, z, 0x10, 2); }},
   {"lea-bi", 0, 3, "ggg", 0, GEN { UNUSED; b.I(O_LEA, x, y, z, 0, 0); }},
   {"mul", 0, 3, "ggg", NEED_RDX | NEED_AB_DISTINCT, GEN { UNUSED; b.I(O_MUL, x, y, z); }},
   {"imul1", 0, 3, "ggg", NEED_RDX | NEED_AB_DISTINCT, GEN { UNUSED; b.I(O_IMUL1, x, y, z); }},
-  {"cqo-idiv", 0, 3, "ggg", NEED_RDX | NEED_AB_DISTINCT, GEN { UNUSED; int t = b.tmp("dv"); b.I(O_MOV, t, z); b.I(O_ANDI, t, -1, -1, 0xFF); b.I(O_ADDI, t, -1, -1, 1); b.I(O_CQO, x, y); b.I(O_IDIV, x, y, t); }},
+  {"cqo-idiv", 0, 3, "ggg", NEED_RDX | NEED_AB_DISTINCT | NEED_64, GEN { UNUSED; int t = b.tmp("dv"); b.I(O_MOV, t, z); b.I(O_ANDI, t, -1, -1, 0xFF); b.I(O_ADDI, t, -1, -1, 1); b.I(O_CQO, x, y); b.I(O_IDIV, x, y, t); }},
   {"cdq-idiv32", 0, 3, "ggg", NEED_RDX | NEED_AB_DISTINCT, GEN { UNUSED; int t = b.tmp("dv"); b.I(O_MOV, t, z); b.I(O_ANDI, t, -1, -1, 0xFF); b.I(O_ADDI, t, -1, -1, 1); b.I(O_CDQ, x, y); b.I(O_IDIV32, x, y, t); }},
-  {"cmpxchg", 0, 3, "ggg", 0, GEN { UNUSED; b.I(O_CMPXCHG, x, y, z); }},
-  {"cmpxchg-mem", 0, 2, "gg", 0, GEN { UNUSED; b.I(O_CMPXCHGM, -1, x, y, OUT_SLOT + 40); }},
+  {"cmpxchg", 0, 3, "ggg", NEED_3REGS, GEN { UNUSED; b.I(O_CMPXCHG, x, y, z); }},
+  {"cmpxchg-mem", 0, 2, "gg", NEED_3REGS, GEN { UNUSED; b.I(O_CMPXCHGM, -1, x, y, OUT_SLOT + 40); }},
   {"bt-setc", 0, 3, "ggg", 0, GEN { UNUSED; b.I(O_BTSET, x, y, z); }},
   {"cmp-setl", 0, 3, "ggg", 0, GEN { UNUSED; b.I(O_SETLT, x, y, z); }},
   {"cmp-cmovl", 0, 3, "ggg", 0, GEN { UNUSED; b.I(O_CMOVLT, x, y, z); }},
@@ -898,6 +1151,40 @@ static const Alpha kAlpha[] = {
   {"kxnor", 2, 3, "kkk", 0, GEN { UNUSED; b.I(O_KXNOR, x, y, z); }},
   {"kandn", 2, 3, "kkk", 0, GEN { UNUSED; b.I(O_KANDN, x, y, z); }},
   {"kadd", 2, 3, "kkk", 0, GEN { UNUSED; b.I(O_KADD, x, y, z); }},
+  // ---- AArch64 (simulated leg; three-operand forms with the destination repeated) ----
+  {"a64-mov", 3, 2, "gg", 0, GEN { UNUSED; b.I(O_MOV, x, y); }},
+  {"a64-mov-w", 3, 2, "gg", 0, GEN { UNUSED; b.I(O_MOV32, x, y); }},
+  {"a64-add", 3, 2, "gg", 0, GEN { UNUSED; b.I(O_ADD, x, y); }},
+  {"a64-sub", 3, 2, "gg", 0, GEN { UNUSED; b.I(O_SUB, x, y); }},
+  {"a64-eor", 3, 2, "gg", 0, GEN { UNUSED; b.I(O_XOR, x, y); }},
+  {"a64-and", 3, 2, "gg", 0, GEN { UNUSED; b.I(O_AND, x, y); }},
+  {"a64-orr", 3, 2, "gg", 0, GEN { UNUSED; b.I(O_OR, x, y); }},
+  {"a64-add-w", 3, 2, "gg", 0, GEN { UNUSED; b.I(O_ADD32, x, y); }},
+  {"a64-mul", 3, 2, "gg", 0, GEN { UNUSED; b.I(O_IMUL2, x, y); }},
+  {"a64-lsl", 3, 2, "gg", 0, GEN { UNUSED; b.I(O_SHL, x, y); }},
+  {"a64-lsr", 3, 2, "gg", 0, GEN { UNUSED; b.I(O_SHR, x, y); }},
+  {"a64-asr", 3, 2, "gg", 0, GEN { UNUSED; b.I(O_SAR, x, y); }},
+  {"a64-madd", 3, 3, "ggg", 0, GEN { UNUSED; b.I(O_MADD, x, y, z); }},
+  {"a64-add-lsl", 3, 3, "ggg", 0, GEN { UNUSED; b.I(O_LEA, x, y, z, 0, 2); }},
+  {"a64-movi", 3, 1, "g", 0, GEN { UNUSED; b.I(O_MOVI, x, -1, -1, 0x1234); }},
+  {"a64-movi0", 3, 1, "g", 0, GEN { UNUSED; b.I(O_MOVI, x, -1, -1, 0); }},
+  {"a64-add-imm", 3, 1, "g", 0, GEN { UNUSED; b.I(O_ADDI, x, -1, -1, 0x123); }},
+  {"a64-sub-imm", 3, 1, "g", 0, GEN { UNUSED; b.I(O_SUBI, x, -1, -1, 1); }},
+  {"a64-and-ff", 3, 1, "g", 0, GEN { UNUSED; b.I(O_ANDI, x, -1, -1, 0xFF); }},
+  {"a64-orr-f0", 3, 1, "g", 0, GEN { UNUSED; b.I(O_ORI, x, -1, -1, 0xF0); }},
+  {"a64-eor-ff", 3, 1, "g", 0, GEN { UNUSED; b.I(O_XORI, x, -1, -1, 0xFF); }},
+  {"a64-lsl-1", 3, 1, "g", 0, GEN { UNUSED; b.I(O_SHLI, x, -1, -1, 1); }},
+  {"a64-lsr-13", 3, 1, "g", 0, GEN { UNUSED; b.I(O_SHRI, x, -1, -1, 13); }},
+  {"a64-asr-63", 3, 1, "g", 0, GEN { UNUSED; b.I(O_SARI, x, -1, -1, 63); }},
+  {"a64-neg", 3, 1, "g", 0, GEN { UNUSED; b.I(O_NEG, x); }},
+  {"a64-mvn", 3, 1, "g", 0, GEN { UNUSED; b.I(O_NOT, x); }},
+  {"a64-ldr", 3, 1, "g", 0, GEN { UNUSED; b.I(O_LOAD, x, -1, -1, 16, 8); }},
+  {"a64-ldr-w", 3, 1, "g", 0, GEN { UNUSED; b.I(O_LOAD, x, -1, -1, 20, 4); }},
+  {"a64-ldrb", 3, 1, "g", 0, GEN { UNUSED; b.I(O_LOAD, x, -1, -1, 27, 1); }},
+  {"a64-str", 3, 1, "g", 0, GEN { UNUSED; b.I(O_STORE, x, -1, -1, OUT_SLOT + 8, 8); }},
+  {"a64-str-w", 3, 1, "g", 0, GEN { UNUSED; b.I(O_STORE, x, -1, -1, OUT_SLOT + 16, 4); }},
+  {"a64-strh", 3, 1, "g", 0, GEN { UNUSED; b.I(O_STORE, x, -1, -1, OUT_SLOT + 24, 2); }},
+  {"a64-strb", 3, 1, "g", 0, GEN { UNUSED; b.I(O_STORE, x, -1, -1, OUT_SLOT + 32, 1); }},
 };
 static const int kAlphaCount = int(sizeof(kAlpha) / sizeof(kAlpha[0]));
 static int alpha_by_name(const std::string& n) { for (int i = 0; i < kAlphaCount; i++) if (n == kAlpha[i].name) return i; return -1; }
@@ -906,14 +1193,17 @@ static int alpha_by_name(const std::string& n) { for (int i = 0; i < kAlphaCount
 static const int kPat[5][3] = {{0, 1, 2}, {1, 2, 0}, {2, 0, 1}, {0, 0, 0}, {2, 2, 0}};
 static const int kPatCount = 5;
 
-static int alpha_class(int vm) { return vm == 0 ? 0 : vm == 2 ? 2 : 1; }
+static int alpha_class(int vm) { return (vm == 0 || vm == 5) ? 0 : vm == 2 ? 2 : 1; }
 
 // is (alpha, pattern) part of the enumeration for this configuration? (static part; operand-dependent constraints are checked in slot())
 static bool alpha_applicable(const Alpha& al, int pat, const Desc& d) {
-  if (al.vm != alpha_class(d.vm)) return false;
+  if (al.vm != (d.arch == 2 ? 3 : alpha_class(d.vm))) return false;
   if (al.arity == 1 && pat > 2) return false;                       // patterns 3,4 repeat 0,2 for one operand
+  if ((al.need & NEED_3REGS) && d.K == 2) return false;             // needs three registers at once: not allocatable in a 2-register file
   if ((al.need & NEED_RDX) && d.K == 2) return false;               // rdx is not in the 2-register file {rax, rcx}
   if ((al.need & NEED_XMM_ONLY) && d.vm != 1) return false;
+  if ((al.need & NEED_NATIVE) && d.arch != 0) return false;          // constant-pool operands are label-relative: outside the simulator
+  if ((al.need & NEED_64) && d.vm == 5) return false;                // 64-bit-only forms in the 32-bit value mode
   if ((al.need & NEED_NOT_Z) && d.vm == 4) return false;            // legacy/VEX-only forms have no zmm encoding
   return true;
 }
@@ -939,6 +1229,8 @@ static bool shape_uses_sel(int sh) { return sh == SH_DIAMOND || sh == SH_IRREDUC
 static bool shape_uses_cnt(int sh) { return sh == SH_LOOP || sh == SH_NESTED || sh == SH_LOOPCOND || sh == SH_IRREDUCIBLE || sh == SH_CALLLOOP; }
 
 static void call(PB& b, int fn, int ret) {
+  // AArch64 calls go through a register: 8 register arguments + the target need 9 allocatable registers
+  if (b.d.arch == 2 && b.d.K && b.d.K < 9 && fn == 8) fn = 2;
   Ins& i = b.I(O_CALL, ret); i.fn = fn;
   size_t n = b.dv.size();
   if (fn == 2) { i.args = {b.F(), b.L()}; }
@@ -951,19 +1243,21 @@ static bool build_prog(const Desc& d, PB& b) {
   int nv = 0, nk = 0;
   if (d.vm == 1 || d.vm == 3 || d.vm == 4) { b.vkind = d.vm == 1 ? KX : d.vm == 3 ? KY : KZ; p.Kx = d.K ? 3 : 0; nv = d.K ? 4 : (d.vm == 4 ? 34 : 18); p.avx = d.vm != 1; p.avx512 = d.vm == 4; }
   if (d.vm == 2) { p.Kk = d.K ? 2 : 0; nk = d.K ? 3 : 9; p.avx512 = true; p.avx = true; }
+  if (d.vm == 5) { p.w32 = true; b.dk = KW; }
+  const int WB = p.w32 ? 4 : 8;
   b.mem = p.newval(KG, "mem");
   p.arg_val.assign(size_t(d.am), -1);
   p.arg_val[0] = b.mem;
-  if (shape_uses_sel(d.shape)) { b.sel = p.newval(KG, "sel"); p.arg_val[1] = b.sel; }
-  if (shape_uses_cnt(d.shape)) { b.cnt = p.newval(KG, "cnt"); p.arg_val[2] = b.cnt; }
-  for (int i = 0; i < d.n; i++) b.dv.push_back(p.newval(KG, "d" + std::to_string(i)));
+  if (shape_uses_sel(d.shape)) { b.sel = p.newval(b.dk, "sel"); p.arg_val[1] = b.sel; }
+  if (shape_uses_cnt(d.shape)) { b.cnt = p.newval(b.dk, "cnt"); p.arg_val[2] = b.cnt; }
+  for (int i = 0; i < d.n; i++) b.dv.push_back(p.newval(b.dk, "d" + std::to_string(i)));
   for (int i = 0; i < nv; i++) b.vv.push_back(p.newval(b.vkind, "v" + std::to_string(i)));
   for (int i = 0; i < nk; i++) b.kv.push_back(p.newval(KK, "k" + std::to_string(i)));
   // init: data values come from the arguments while there are some, then from the input area of the buffer
   for (int i = 0; i < d.n; i++) {
     if (3 + i < d.am) { p.arg_val[size_t(3 + i)] = b.dv[size_t(i)]; continue; }
-    b.I(O_LOAD, b.dv[size_t(i)], -1, -1, 8 * (i % 8), 8);
-    b.I(O_ADDI, b.dv[size_t(i)], -1, -1, 0x101 * i + 1);
+    b.I(O_LOAD, b.dv[size_t(i)], -1, -1, 8 * (i % 8), WB);
+    b.I(O_ADDI, b.dv[size_t(i)], -1, -1, 29 * i + 1);
   }
   for (int j = 0; j < nv; j++) {
     int v = b.vv[size_t(j)];
@@ -1081,8 +1375,8 @@ static bool build_prog(const Desc& d, PB& b) {
     if (b.vkind == KX) { if (t < 0) t = b.tmp("t"); b.I(O_VMOV_GV, t, b.vv[j]); fold(t); }
   }
   for (size_t j = 0; j < b.kv.size(); j++) { if (t < 0) t = b.tmp("t"); b.I(O_KMOV_GK, t, b.kv[j]); fold(t); }
-  for (size_t i = 0; i < b.dv.size() && i < 3; i++) b.I(O_STORE, b.dv[i], -1, -1, 72 + 8 * int64_t(i), 8);
-  b.I(O_STORE, acc, -1, -1, 64, 8);
+  for (size_t i = 0; i < b.dv.size() && i < 3; i++) b.I(O_STORE, b.dv[i], -1, -1, 72 + 8 * int64_t(i), WB);
+  b.I(O_STORE, acc, -1, -1, 64, WB);
   b.I(O_RET, acc);
   return true;
 }
@@ -1111,16 +1405,18 @@ static std::vector<Input> inputs_for(int shape) {
 
 // ---- descriptor <-> text --------------------------------------------------------------------------------
 static std::string desc_str(const Desc& d) {
-  std::string s = std::string("shape=") + kShapeName[d.shape] + " K=" + std::to_string(d.K) + " n=" + std::to_string(d.n) + " args=" + std::to_string(d.am) + " vm=" + std::to_string(d.vm) + " fills=";
+  std::string s = std::string("arch=") + kArchName[d.arch] + " shape=" + kShapeName[d.shape] + " K=" + std::to_string(d.K) + " n=" + std::to_string(d.n) + " args=" + std::to_string(d.am) + " vm=" + std::to_string(d.vm) + " fills=";
   for (size_t i = 0; i < d.fills.size(); i++) s += (i ? "," : "") + std::string("S") + std::to_string(d.fills[i].slot) + ":" + kAlpha[d.fills[i].alpha].name + ":p" + std::to_string(d.fills[i].pat);
   if (d.fills.empty()) s += "-";
   return s;
 }
 static bool parse_desc(const std::string& text, Desc& d) {
   for (auto& line : vh::split(text, '\n')) {
-    if (line.rfind("shape=", 0) != 0) continue;
-    char sh[64], fl[1024]; fl[0] = 0;
-    if (sscanf(line.c_str(), "shape=%63s K=%d n=%d args=%d vm=%d fills=%1023s", sh, &d.K, &d.n, &d.am, &d.vm, fl) < 5) return false;
+    if (line.rfind("arch=", 0) != 0) continue;
+    char ar[16], sh[64], fl[1024]; fl[0] = 0;
+    if (sscanf(line.c_str(), "arch=%15s shape=%63s K=%d n=%d args=%d vm=%d fills=%1023s", ar, sh, &d.K, &d.n, &d.am, &d.vm, fl) < 6) return false;
+    d.arch = -1; for (int i = 0; i < 3; i++) if (!strcmp(ar, kArchName[i])) d.arch = i;
+    if (d.arch < 0) return false;
     d.shape = -1; for (int i = 0; i < SH__COUNT; i++) if (!strcmp(sh, kShapeName[i])) d.shape = i;
     if (d.shape < 0) return false;
     if (strcmp(fl, "-")) for (auto& f : vh::split(fl, ',')) {
@@ -1138,14 +1434,15 @@ static bool parse_desc(const std::string& text, Desc& d) {
 // main: enumeration
 // =========================================================================================================
 static long long g_idx = 0;
+static bool g_dry = false;   // --dry 1: count the programs of the tier without running them
 static bool g_stop = false;
 static std::map<std::string, long long> g_shape_count;
 
-static void run_desc(const Desc& d) {
+static void run_one(const Desc& d, bool sample) {
   vh::Ctx& c = vh::ctx();
   PB b(d);
   if (!build_prog(d, b)) { c.n("skipped_not_wellformed")++; return; }
-  CaseInfo ci; ci.shape = kShapeName[d.shape];
+  CaseInfo ci; ci.shape = kShapeName[d.shape]; ci.arch = kArchName[d.arch];
   for (const Fill& f : d.fills) ci.ops += (ci.ops.empty() ? "" : "+") + std::string(kAlpha[f.alpha].name);
   if (ci.ops.empty()) ci.ops = "-";
   ci.replay = "harness=c05_ra\n" + desc_str(d) + "\n";
@@ -1153,12 +1450,85 @@ static void run_desc(const Desc& d) {
   static std::map<int, std::vector<Input>> cache;
   auto it = cache.find(d.shape);
   if (it == cache.end()) it = cache.emplace(d.shape, inputs_for(d.shape)).first;
-  run_case(b.p, ci, it->second);
+  if (d.arch == 0) run_case(b.p, ci, it->second); else run_case_sim(b.p, ci, it->second, d.arch);
+  if (!sample) return;
   g_shape_count[ci.shape]++;
+  c.n(d.arch == 0 ? "programs_x64_native" : d.arch == 1 ? "programs_x86_32_simulated" : "programs_a64_simulated")++;
   if (!d.fills.empty()) c.sample(ci.body, 10);
 }
 
-struct Config { int K, n, am, vm; };
+static std::array<int, 3> op_tuple(const Alpha& al, int pat, const Desc& d);
+static bool alpha_applicable(const Alpha& al, int pat, const Desc& d);
+
+// does this alphabet entry, filled alone into any slot of any shape with any operand pattern, already fail in this configuration?
+static bool fails_alone(const Desc& d, int alpha) {
+  static std::map<std::string, bool> cache;
+  Desc base = d; base.fills.clear(); base.shape = 0;
+  std::string key = desc_str(base) + "|" + kAlpha[alpha].name;
+  auto it = cache.find(key);
+  if (it != cache.end()) return it->second;
+  bool fails = false;
+  for (int sh = 0; sh < SH__COUNT && !fails; sh++) {
+    base.shape = sh;
+    if (d.arch != 0 && (sh == SH_JT3 || sh == SH_JT2)) continue;
+  for (int s = 0; s < kShapeSlots[sh] && !fails; s++) {
+    std::vector<std::array<int, 3>> seen;
+    for (int pt = 0; pt < kPatCount && !fails; pt++) {
+      if (!alpha_applicable(kAlpha[alpha], pt, base)) continue;
+      auto t = op_tuple(kAlpha[alpha], pt, base);
+      bool dup = false; for (auto& x : seen) if (x == t) dup = true;
+      if (dup) continue;
+      seen.push_back(t);
+      Desc s1 = base; s1.fills = {Fill{s, alpha, pt}};
+      g_pending.have = false; run_one(s1, false);
+      if (g_pending.have) fails = true;
+    }
+  }
+  }
+  cache[key] = fails;
+  return fails;
+}
+
+static bool how_two_ops(const std::string& key) { size_t cut = key.rfind(':'); return key.find('+', cut) != std::string::npos; }
+
+static void run_desc(const Desc& d) {
+  vh::Ctx& c = vh::ctx();
+  g_pending.have = false;
+  run_one(d, true);
+  if (!g_pending.have) return;
+  Pending rep = g_pending;
+  if (d.fills.size() == 2) {
+    bool verbose_saved = g_verbose; g_verbose = false;
+    // Attribute the failure.  (1) one of the two fillings alone, in the same slot with the same operands, already fails: that
+    // single-fill program is reported (minimal key and replay).  (2) otherwise, an operation that fails alone somewhere in this
+    // shape/configuration gives the key its name (the pair program stays the replay).  (3) only a genuine interaction of two
+    // operations that never fail alone keeps the two-operation key.
+    std::map<std::string, long long> saved = c.counters;
+    int how = 3;
+    for (int i = 0; i < 2 && how == 3; i++) { Desc s1 = d; s1.fills = {d.fills[size_t(i)]}; g_pending.have = false; run_one(s1, false); if (g_pending.have) { rep = g_pending; how = 1; } }
+    if (how == 3) {
+      bool fa = fails_alone(d, d.fills[0].alpha), fb = fails_alone(d, d.fills[1].alpha);
+      if (fa || fb) {
+        size_t cut = rep.key.rfind(':');
+        rep.key = rep.key.substr(0, cut + 1) + kAlpha[d.fills[fa ? 0 : 1].alpha].name;
+        how = 2;
+      }
+    }
+    c.counters = saved; g_verbose = verbose_saved;
+    c.n(how == 1 ? "failures_attributed_to_one_fill" : how == 2 ? "failures_attributed_to_an_operation_failing_alone" : "failures_needing_both_fills")++;
+  }
+  if (how_two_ops(rep.key)) {
+    // bound the number of distinct two-operation keys per shard: the first few are listed, the rest is aggregated per shape/clause
+    static std::set<std::string> listed;
+    if (!listed.count(rep.key)) {
+      if (listed.size() < 6) listed.insert(rep.key);
+      else { size_t cut = rep.key.rfind(':'); rep.key = rep.key.substr(0, cut + 1) + "two-ops-further"; rep.desc = "(further failing two-operation programs, aggregated; first one:) " + rep.desc; }
+    }
+  }
+  c.violation(rep.key, rep.desc, rep.replay);
+}
+
+struct Config { int K, n, am, vm; int arch = 0; };
 
 // operand index tuple of (alpha, pat) for dedup of patterns that select the same operands
 static std::array<int, 3> op_tuple(const Alpha& al, int pat, const Desc& d) {
@@ -1172,13 +1542,13 @@ static std::array<int, 3> op_tuple(const Alpha& al, int pat, const Desc& d) {
   return t;
 }
 
-static std::vector<Fill> fills_for(const Desc& d) {
+static std::vector<Fill> fills_for(const Desc& d, unsigned pat_mask = 0x1F) {
   std::vector<Fill> out;
   for (int s = 0; s < kShapeSlots[d.shape]; s++)
     for (int a = 0; a < kAlphaCount; a++) {
       std::vector<std::array<int, 3>> seen;
       for (int pt = 0; pt < kPatCount; pt++) {
-        if (!alpha_applicable(kAlpha[a], pt, d)) continue;
+        if (!(pat_mask & (1u << pt)) || !alpha_applicable(kAlpha[a], pt, d)) continue;
         auto t = op_tuple(kAlpha[a], pt, d);
         bool dup = false; for (auto& x : seen) if (x == t) dup = true;
         if (dup) continue;
@@ -1189,15 +1559,18 @@ static std::vector<Fill> fills_for(const Desc& d) {
   return out;
 }
 
-static void enumerate(const std::vector<Config>& cfgs, int k, const std::vector<int>& shapes) {
+static void enumerate(const std::vector<Config>& cfgs, int k, const std::vector<int>& shapes, unsigned pat_mask = 0x1F) {
   vh::Ctx& c = vh::ctx();
   for (const Config& cf : cfgs) for (int sh : shapes) {
-    Desc d; d.shape = sh; d.K = cf.K; d.n = cf.n; d.am = cf.am; d.vm = cf.vm;
-    std::vector<Fill> fl = fills_for(d);
+    Desc d; d.arch = cf.arch; d.shape = sh; d.K = cf.K; d.n = cf.n; d.am = cf.am; d.vm = cf.vm;
+    if (cf.arch != 0 && (sh == SH_JT3 || sh == SH_JT2)) continue;   // indirect jumps are outside the simulator
+    std::vector<Fill> fl = fills_for(d, pat_mask);
     auto one = [&](const Desc& dd) {
       if (g_stop) return;
+      if (g_dry) { g_idx++; return; }
       if (!c.mine(g_idx++)) return;
       if ((c.n("evaluations") & 63) == 0 && c.out_of_time()) { g_stop = true; return; }
+      if (c.n("hangs") >= 10) { c.exhaustive = false; c.note("exploration of this shard stopped after 10 non-terminating programs (each costs seconds)"); g_stop = true; return; }
       run_desc(dd);
     };
     if (k == 1) {
@@ -1231,6 +1604,7 @@ int main(int argc, char** argv) {
     return vh::finish();
   }
 
+  g_dry = c.opt("dry") == "1";
   std::vector<int> all_shapes; for (int i = 0; i < SH__COUNT; i++) all_shapes.push_back(i);
   std::vector<Config> cfg1, cfg2;
   std::string bound;
@@ -1245,31 +1619,45 @@ int main(int argc, char** argv) {
   };
   if (!c.thorough()) {
     add_k(cfg1, 3, {6, 10});
-    cfg1.push_back(Config{0, 20, 6, 0}); cfg1.push_back(Config{0, 70, 10, 0});
+    cfg1.push_back(Config{0, 20, 6, 0}); cfg1.push_back(Config{0, 70, 10, 0}); cfg1.push_back(Config{0, 130, 6, 0});
     add_vec(cfg1, 3, 3); add_vec(cfg1, 0, 20);
-    bound = "k<=1 slot; K=3 with total GP pressure {2,3,4,6} (= data values + buffer pointer; loop counters/selectors on top) x args {6, 10 (4 on the stack)}; full file with 20 (6 args) and 70 (10 args) data values; "
-            "xmm/ymm/zmm/k-mask value modes at K=3 (vector file 3, mask file 2; 4 vector / 3 mask values) and full file (18/18/34 vector, 9 mask values)";
+    cfg1.push_back(Config{3, 2, 6, 5}); cfg1.push_back(Config{3, 4, 10, 5}); cfg1.push_back(Config{0, 20, 6, 5});
+    cfg1.push_back(Config{3, 2, 6, 5, 1}); cfg1.push_back(Config{3, 4, 10, 5, 1}); cfg1.push_back(Config{0, 10, 6, 5, 1});
+    cfg1.push_back(Config{3, 2, 6, 0, 2}); cfg1.push_back(Config{3, 4, 10, 0, 2}); cfg1.push_back(Config{0, 20, 6, 0, 2}); cfg1.push_back(Config{0, 36, 10, 0, 2});
+    bound = "k<=1 slot; x64 native: K=3 with total GP pressure {2,3,4,6} (= data values + buffer pointer; loop counters/selectors/call targets on top) x args {6, 10 (4 on the stack)}; full file with 20 (6 args), 70 (10 args) and 130 (6 args) data values; "
+            "xmm/ymm/zmm/k-mask value modes at K=3 (vector file 3, mask file 2; 4 vector / 3 mask values) and full file (18/18/34 vector, 9 mask values); 32-bit virtual registers at K=3 (pressure 3, 5) and full file (20); "
+            "x86-32 simulated: K=3 (pressure 3, 5), full file (10 values); AArch64 simulated: K=3 (pressure 3, 5), full file (20, 36 values)";
   } else {
     for (int K : {2, 3, 4}) add_k(cfg1, K, {6, 10});
-    cfg1.push_back(Config{0, 20, 6, 0}); cfg1.push_back(Config{0, 20, 10, 0}); cfg1.push_back(Config{0, 70, 6, 0}); cfg1.push_back(Config{0, 70, 10, 0}); cfg1.push_back(Config{0, 130, 6, 0}); cfg1.push_back(Config{0, 130, 10, 0});
-    add_vec(cfg1, 3, 1); add_vec(cfg1, 3, 3); add_vec(cfg1, 2, 2); add_vec(cfg1, 0, 20);
-    cfg2.push_back(Config{3, 3, 6, 0}); cfg2.push_back(Config{3, 2, 6, 0});
-    bound = "k<=1 slot: K in {2,3,4} x total GP pressure {K-1,K,K+1,K+3} x args {6,10}; full file with 20/70/130 data values x args {6,10}; vector/mask value modes at K=3 (1 and 3 data values), K=2, full file; "
-            "k=2 slots: K=3, total pressure {3,4}, 6 args, GP alphabet";
+    for (int n : {20, 70, 130}) for (int am : {6, 10}) cfg1.push_back(Config{0, n, am, 0});
+    add_vec(cfg1, 3, 1); add_vec(cfg1, 3, 3); add_vec(cfg1, 2, 2); add_vec(cfg1, 4, 5); add_vec(cfg1, 0, 20);
+    for (int K : {2, 3, 4}) { size_t from = cfg1.size(); add_k(cfg1, K, {6}); for (size_t i = from; i < cfg1.size(); i++) cfg1[i].vm = 5; }
+    cfg1.push_back(Config{0, 20, 6, 5}); cfg1.push_back(Config{0, 70, 10, 5});
+    for (int K : {2, 3, 4}) { size_t from = cfg1.size(); add_k(cfg1, K, {6, 10}); for (size_t i = from; i < cfg1.size(); i++) { cfg1[i].vm = 5; cfg1[i].arch = 1; } }
+    cfg1.push_back(Config{0, 8, 6, 5, 1}); cfg1.push_back(Config{0, 12, 10, 5, 1});
+    for (int K : {3, 4}) { size_t from = cfg1.size(); add_k(cfg1, K, {6, 10}); for (size_t i = from; i < cfg1.size(); i++) cfg1[i].arch = 2; }
+    cfg1.push_back(Config{0, 20, 6, 0, 2}); cfg1.push_back(Config{0, 28, 10, 0, 2}); cfg1.push_back(Config{0, 36, 10, 0, 2});
+    cfg2.push_back(Config{3, 3, 6, 0});
+    bound = "k<=1 slot: x64 K in {2,3,4} x total GP pressure {K-1,K,K+1,K+3} x args {6,10}; full file with 20/70/130 data values x args {6,10}; vector/mask value modes at K=2,3,4 and full file; 32-bit value mode at K in {2,3,4} and full file (20, 70 values); "
+            "x86-32 (simulated) K in {2,3,4} and full file (8, 12 values); AArch64 (simulated) K in {3,4} and full file (20, 28, 36 values); "
+            "k=2 slots (two different slots, or one slot filled twice in both orders): x64, K=3, total pressure 4, 6 args, GP alphabet, operand patterns {first-second-last, second-last-first, same-twice}";
   }
   enumerate(cfg1, 1, all_shapes);
   long long n1 = c.n("evaluations");
-  if (!cfg2.empty() && !g_stop) enumerate(cfg2, 2, all_shapes);
+  if (!cfg2.empty() && !g_stop) enumerate(cfg2, 2, all_shapes, 0x0B);
+  if (g_dry) { printf("programs in this tier: %lld\n", g_idx); return 0; }
   c.n("programs_k1") = n1; c.n("programs_k2") = c.n("evaluations") - n1;
   c.n("states") = c.n("evaluations");
   c.n("transitions") = c.n("traces");
   for (auto& kv : g_shape_count) c.n(("shape_" + kv.first).c_str()) = kv.second;
   c.strs["bound"] = bound + (g_stop ? " (capped by the deadline)" : "");
-  c.strs["rule"] = "programs = shape{straight,diamond,loop,nested-loop,loop-cond,irreducible,jumptable3,jumptable2,call-mid,call-loop,two-calls} x register file K x pressure x argument mode x value mode x "
-                   "slot fillings (alphabet of " + std::to_string(kAlphaCount) + " x86 instruction forms x operand pattern{first/second/last/same-twice}); every program is built with x86::Compiler, "
-                   "allocated, assembled, executed natively on 4 data tuples x every control input (branch both ways, loops 0/1/3 trips, every jump-table target) and compared with the direct interpretation of the IR "
-                   "(return value, 6 KiB memory buffer + guards, external-call log; callee-saved registers and rsp preserved); distinct_nontrivial = programs whose allocated code contains a save/load/move/swap or a register operand replaced by its spill slot";
-  c.assumptions.push_back("x86-64 only (native execution); x86-32 and AArch64 register allocation are not covered by this harness");
-  c.assumptions.push_back("pressure 1..200 is covered through K-relative pressures and 20/70/130 values, not every absolute count; 8/16/32-bit virtual registers are exercised only as sub-registers of 64-bit values");
+  c.strs["rule"] = "programs = arch{x64 native, x86-32 simulated, AArch64 simulated} x shape{straight,diamond,loop,nested-loop,loop-cond,irreducible,jumptable3,jumptable2,call-mid,call-loop,two-calls} x register file K x pressure x "
+                   "argument mode x value mode{gp64, xmm, ymm, zmm, k-mask, gp32} x slot fillings (alphabet of " + std::to_string(kAlphaCount) + " instruction forms x operand pattern{first/second/last/same-twice}); every program is built with the Compiler and allocated; "
+                   "x64: assembled and executed natively on 4 data tuples x every control input (branch both ways, loops 0/1/3 trips, every jump-table target); x86-32/AArch64: the allocated node list is interpreted by engine/msim.h on the same inputs; "
+                   "compared with the direct interpretation of the IR: return value, memory buffer (+ guards / any store outside buffer and stack), external-call log; callee-saved registers and stack pointer preserved; "
+                   "distinct_nontrivial = programs whose allocated code contains a save/load/move/swap or a register operand replaced by its spill slot; states = programs, transitions = traces = programs x inputs executed";
+  c.assumptions.push_back("x86-32 and AArch64 code is simulated at node level (GP alphabet only, no jump tables, no vector/list instructions); their encodings are not exercised here");
+  c.assumptions.push_back("pressure 1..200 is covered through K-relative pressures and 20/36/70/130 values, not every absolute count; 8/16-bit virtual registers are exercised only as sub-registers of 32/64-bit values");
+  c.assumptions.push_back("register-list instructions and consecutive-register constraints (AArch64 ld1..ld4, x86 vp2intersect / 4-register blocks) are not in the alphabet");
   return vh::finish();
 }
